@@ -18,6 +18,9 @@ theorem pres_miss {s s' : St} {a : Act} (hI : Inv s) (h : step .repaired s a = s
   | block d =>
     simp only [step] at h
     (repeat' (split at h)) <;> (try cases h) <;> (simp only []; (have i_miss := hI.miss; have i_lockA := hI.lockA; grind [missDir, holdsStore, upd]))
+  | repair d =>
+    simp only [step] at h
+    (repeat' (split at h)) <;> (try cases h) <;> (simp only []; (have i_miss := hI.miss; have i_lockA := hI.lockA; grind [missDir, holdsStore, upd]))
   | run t0 =>
     simp only [step] at h
     split at h
